@@ -58,14 +58,37 @@ def run(index, tier="quick", seed=0) -> Result:
                 "rotation that aligned the vertices (np.dot(points, rotation.T)): for a polygon in a tilted plane points and vertices live in different frames")
     else:
         res.bad("IN-7", "Polygon.is_inside:rotation:forward", rot_pts[0].where(), "Polygon.is_inside rotates the points with the inverse of the rotation applied to the vertices")
-    rets = [n_ for n_ in ast.walk(fn.node) if isinstance(n_, ast.Return) and n_.value is not None]
-    ok = len(rets) == 1 and isinstance(rets[0].value, ast.Compare) and isinstance(rets[0].value.ops[0], ast.NotEq) \
-        and isinstance(rets[0].value.comparators[0], ast.Constant) and rets[0].value.comparators[0].value == 0
-    if ok:
+    # IN-6: the answer is `winding number != 0` (orientation-free); judged on the value that is returned, however it is named
+    verdicts = []
+    for (v_, _s, n_) in r["returns"]:
+        x = v_.extra
+        neg = False
+        while x and x[0] == "not":
+            x = x[1].extra
+            neg = not neg
+        if x and x[0] == "cmp" and len(x[1].ops) == 1 and len(x[3]) == 1:
+            op = type(x[1].ops[0]).__name__
+            left, right = x[2], x[3][0]
+            zero_r = right.is_number_const() and right.const == 0
+            zero_l = left.is_number_const() and left.const == 0
+            other = left if zero_r else right
+            if (zero_r or zero_l) and ((op == "NotEq" and not neg) or (op == "Eq" and neg)):
+                verdicts.append("ok")
+            elif (zero_r or zero_l) and op in ("Gt", "Lt", "GtE", "LtE") and "abs" not in other.tags:
+                verdicts.append("signed")
+            elif (zero_r or zero_l) and op in ("Gt",) and "abs" in other.tags:
+                verdicts.append("ok")
+            else:
+                verdicts.append("unknown")
+        else:
+            verdicts.append("unknown")
+    if verdicts and all(v_ == "ok" for v_ in verdicts):
         res.ok("IN-6", "Polygon.is_inside:parity")
-    else:
+    elif "signed" in verdicts:
         res.bad("IN-6", "Polygon.is_inside:parity", f"{fn.file}:{fn.lineno}", "Polygon.is_inside does not answer `winding_number != 0`: "
                 "a sign-sensitive test makes the answer depend on the vertex orientation")
+    else:
+        raise AnalysisError("Polygon.is_inside: the returned value is not a recognised test of the winding number against 0")
     from ..parallel import report as _copy1
     _copy1(res, index, lambda f: f['top'] == 'is_inside' and f['cls'] in ('Polygon', 'ConvexPolygon', 'Circle', 'Ellipse'))
     return res
